@@ -88,7 +88,8 @@ func (facade *PackagesFacade) initWithGlobs() error {
 
 	// For each glob expression (provided via gleece.config), parse all matching files
 	for _, globExpr := range facade.config.Globs {
-		globbedSources, err := doublestar.FilepathGlob(globExpr)
+		// A glob such as "./controllers/**" also matches the directories themselves; only files are sources
+		globbedSources, err := doublestar.FilepathGlob(globExpr, doublestar.WithFilesOnly())
 		if err != nil {
 			return err
 		}
